@@ -203,6 +203,14 @@ func (e *Engine) finishPath(st *State) {
 		r.BoundCuts[st.outcome]++
 		return
 	case "budget", "unsupported", "other":
+		if cls == "budget" && e.noPanic && strings.Contains(st.outcome, "call depth limit") {
+			// C19: recursion without progress (the native replay runs it in a watched subprocess)
+			r.Paths++
+			r.Obligations++
+			r.Outcomes["unbounded-recursion"]++
+			e.recordViolation(st, "no-unbounded-recursion", st.model, st.outcome)
+			return
+		}
 		r.Inconclusive[st.outcome]++
 		return
 	case "assert":
@@ -212,6 +220,12 @@ func (e *Engine) finishPath(st *State) {
 		return
 	}
 	r.Paths++
+	if e.noPanic { // the path itself is the obligation: it must not end in a Go panic
+		r.Obligations++
+		if cls != "panic" {
+			r.Discharged++
+		}
+	}
 	if cls == "panic" {
 		key := st.outcome
 		if i := strings.Index(key, " <- "); i > 0 {
@@ -357,6 +371,10 @@ func (e *Engine) recordViolation(st *State, name string, m Model, note string) {
 
 // assertObligation discharges one verif.Assert: PC ∧ ¬c must be unsat.
 func (e *Engine) assertObligation(st *State, name string, c *Term) {
+	// assertions tagged for another property ("Cnn-...") are not part of this item
+	if e.onlyPrefix != "" && len(name) > 4 && name[0] == 'C' && name[3] == '-' && name[:3] != e.onlyPrefix {
+		return
+	}
 	if !st.pendingAssert {
 		st.pendingAssert = true
 		owns := e.ownsNow(st)
